@@ -116,7 +116,7 @@ def _worker(tier):
                 else:
                     res, info = CH.run_jaxley_chain(module, topo, Pn, dtn, be, tagn, 30000)
                     if info.get("refused"):
-                        structural(f"cable in a mixed-depth network:{tagn} accepted by the backend", False, info["refused"])
+                        out.setdefault("refused", []).append(f"{tagn}: {info['refused']}")     # a backend may refuse a model (not a violation)
                 out["results"] += res
                 out["reached"].update(info.get("reached", {}))
         # ---- single compartment with a leak: the real Module.step
@@ -177,7 +177,7 @@ def main(tier):
             if r["status"] == "refuted" and nviol < 12:
                 nviol += 1
                 rp, extra = {"reproduced": False}, {}
-                if ";tree=" in r["name"]:
+                if ";tree=" in r["name"] and r["name"].rstrip().endswith("]"):
                     # obligation of the solver chain on a network structure: native replay as in C01 (all backends against a dense
                     # solve of the physical system, random positive parameters)
                     from . import C01
@@ -191,6 +191,7 @@ def main(tier):
                     rp, extra = rp_cache[tag], {"cells": cells, "replay_module": "jxverif.props.C01"}
                 ck.violation(r["name"], {"solver": r["backend"], "solver_output": r["detail"], "model": r["model"], "kind": "c01" if extra else "c15", "replay": rp, **extra},
                              reproduced=rp.get("reproduced", False))
+        ck.refused += o[1].get("refused", [])
         ck.extra["code_reached"] = {k: v for k, v in o[1]["reached"].items() if k.startswith("jaxley")}
         for f in ("jaxley.utils.cell_utils.compute_axial_conductances", "jaxley.utils.cell_utils.compute_coupling_cond", "jaxley.modules.base.Module.step",
                   "jaxley.modules.base.Module._channel_currents", "jaxley.modules.base.Module._get_external_input", "jaxley.utils.cell_utils.convert_point_process_to_distributed",
